@@ -242,6 +242,32 @@ fn run_typed<T: Payload>(p: &Program, cfg: &RunCfg, m: Option<Arc<Explored>>) ->
                 s.executions
             });
             let _ = cnt;
+            // which transfer path did each received value take?
+            {
+                let mut paths = [0u64; 3];
+                for c in &h.calls {
+                    let got = match &c.res {
+                        crate::hist::Res::Val(t) => vec![*t],
+                        crate::hist::Res::Drained(_, v) => v.clone(),
+                        _ => vec![],
+                    };
+                    for t in got {
+                        if c.registered.is_some() {
+                            paths[1] += 1; // written into the blocked receiver's slot
+                        } else if h.calls.iter().any(|s| s.tag == Some(t) && s.op.is_send_like() && s.registered.is_some()) {
+                            paths[2] += 1; // read out of a blocked sender's slot
+                        } else {
+                            paths[0] += 1; // through the buffer (or handed over at once)
+                        }
+                    }
+                }
+                STATS.with(|s| {
+                    let mut s = s.borrow_mut();
+                    for i in 0..3 {
+                        s.paths[i] += paths[i];
+                    }
+                });
+            }
             for o in &cfg.oracles {
                 if let Err(msg) = oracle::check(*o, &p, &h, m.as_deref()) {
                     STATS.with(|s| {
